@@ -208,11 +208,14 @@ def run(sid, checks):
         m = json.load(open(mp)); m.setdefault('checks', {}).update(res); json.dump(m, open(mp, 'w'), indent=1)
 
 
-EXTRA = {'C11-8': [], 'C04-7': ['C14'], 'C14-7': [], 'C02-8': ['C14'], 'C12-8': ['C13'], 'C16-7': ['C17'], 'C17-7': ['C16'], 'C17-8': ['C11'], 'C15-8': [], 'C01-8': ['C07'], 'C07-7': ['C01'], 'C05-8': ['C06'], 'C18-8': ['C04'], 'C02-5': ['C01', 'C14'], 'C02-6': ['C14'], 'C01-5': ['C07'], 'C06-5': ['C05'], 'C06-6': ['C07'], 'C17-4': ['C16'], 'C17-3': ['C16'], 'C03-4': ['C14'], 'C14-4': ['C03'], 'C14-3': ['C05'], 'C07-4': ['C06'], 'C15-4': ['C01'], 'C02-3': ['C01'], 'C04-3': ['C07'], 'C04-4': ['C07'], 'C05-3': [], 'C05-4': ['C06'], 'C06-3': [], 'C06-4': ['C05'], 'C07-1': ['C05', 'C06'], 'C07-2': ['C04'], 'C14-2': ['C04'], 'C18-2': ['C04'], 'C16-2': ['C06'], 'C11-1': ['C13'], 'C17-1': ['C18'], 'C01-2': ['C07'], 'C01-1': ['C02'], 'C05-1': ['C06'], 'C05-2': ['C06', 'C07'],
+EXTRA = {'C03-9': ['C14'], 'C10-9': ['C01', 'C07'], 'C14-9': [], 'C17-9': ['C16'], 'C16-9': ['C06'], 'C11-8': [], 'C04-7': ['C14'], 'C14-7': [], 'C02-8': ['C14'], 'C12-8': ['C13'], 'C16-7': ['C17'], 'C17-7': ['C16'], 'C17-8': ['C11'], 'C15-8': [], 'C01-8': ['C07'], 'C07-7': ['C01'], 'C05-8': ['C06'], 'C18-8': ['C04'], 'C02-5': ['C01', 'C14'], 'C02-6': ['C14'], 'C01-5': ['C07'], 'C06-5': ['C05'], 'C06-6': ['C07'], 'C17-4': ['C16'], 'C17-3': ['C16'], 'C03-4': ['C14'], 'C14-4': ['C03'], 'C14-3': ['C05'], 'C07-4': ['C06'], 'C15-4': ['C01'], 'C02-3': ['C01'], 'C04-3': ['C07'], 'C04-4': ['C07'], 'C05-3': [], 'C05-4': ['C06'], 'C06-3': [], 'C06-4': ['C05'], 'C07-1': ['C05', 'C06'], 'C07-2': ['C04'], 'C14-2': ['C04'], 'C18-2': ['C04'], 'C16-2': ['C06'], 'C11-1': ['C13'], 'C17-1': ['C18'], 'C01-2': ['C07'], 'C01-1': ['C02'], 'C05-1': ['C06'], 'C05-2': ['C06', 'C07'],
          'C06-1': ['C05'], 'C06-2': ['C05'], 'C03-1': ['C14'], 'C15-2': ['C14']}
 
 
 NOTES = {
+ 'C19-9': 'first run inconclusive (no model for slice::swap on [&[u8]]): the swap model is now found through its generic definition',
+ 'C14-9': 'first run inconclusive (the candidate for the native confirmation of the trio differential had a settled ramp, where a quote with the wrong amplification does not differ): the candidate now lies 20% into a ramp',
+ 'C10-9': 'caught by C01 and C07 (the pool-side collection step); C10 decides the collector\'s side of the pipeline',
  'C04-7': 'first run inconclusive (kernel-stubbed counterexamples did not reproduce natively): obligation `curve_at_height` added - every kernel call of a swap is made on a calculator built from the stored ramp and the current block HEIGHT',
  'C13-7': 'missed at first: snapshot-then-expand order added to the share part (a change after the snapshot counts from the next epoch on)',
  'C16-7': 'missed at first: ownership transfer of the three-asset pool (alone, together with a ramp, together with every other option) followed by a privileged call of a symbolic caller added',
